@@ -540,7 +540,7 @@ static Verdict prop_prefix(const uint8_t *data, size_t n) {
 
 // ------------------------------------------------------------------------------------------------ decoder properties
 static void sched_from_tape(Tape &t, std::vector<uint32_t> &in_steps, std::vector<uint32_t> &out_sizes) {
-  unsigned how = t.pick(5);
+  unsigned how = t.pick(7);
   in_steps.clear();
   out_sizes.clear();
   if (how == 0) {
@@ -557,16 +557,25 @@ static void sched_from_tape(Tape &t, std::vector<uint32_t> &in_steps, std::vecto
   } else if (how == 3) {
     in_steps = {1 + t.pick(64)};
     out_sizes = {900000};
-  } else {
+  } else if (how == 4) {
     in_steps = {65536};
     out_sizes = {1 + t.pick(7)};
+  } else if (how == 5) {
+    // around the decoder's fast-path requirement (a group of fifty 20-bit codes needs 32 words of look-ahead)
+    in_steps = {29 + t.pick(7)};
+    out_sizes = {900000};
+  } else {
+    static const uint32_t cand[] = {1, 2, 31, 32, 33, 34, 63, 64, 65};
+    unsigned k = 2 + t.pick(5);
+    for (unsigned i = 0; i < k; i++) in_steps.push_back(cand[t.pick(9)]);
+    out_sizes = {1 + t.pick(4000)};
   }
 }
 
 // `file` decoded (a) in one piece with production-sized buffers, (b) under the tape's schedule: both must agree with
 // each other (C09) and with the strict reference (C05 / C06).
 static Verdict check_decode(const std::string &file, Tape &t, const uint8_t *fp_data, size_t fp_n, const char *origin,
-                            const std::string *known_plain) {
+                            const std::string *known_plain, bool require_accept = true) {
   Verdict V;
   const size_t MAXOUT = 8u << 20;
   uint8_t *o1 = nullptr, *o2 = nullptr;
@@ -601,7 +610,7 @@ static Verdict check_decode(const std::string &file, Tape &t, const uint8_t *fp_
       V.fail("accepted, but the bytes differ from the reference decoding");
   }
   // C06: a conforming file must be accepted (documented exception: a used incomplete table)
-  if (V.ok && R.valid && !R.incomplete_used && !excluded && r1 != VG_OK && file.size() >= 4)
+  if (V.ok && require_accept && R.valid && !R.incomplete_used && !excluded && r1 != VG_OK && file.size() >= 4)
     V.fail(std::string("rejected a conforming file: ") + vg_errname(r1));
   if (V.ok && known_plain && R.valid && (R.output != *known_plain)) V.fail("harness: reference decoding differs from the generator's plaintext");
   G.label(std::string(origin) + (R.valid ? ":valid" : ":invalid"));
@@ -635,6 +644,21 @@ static Verdict prop_decode_valid(const uint8_t *data, size_t n) {
   for (auto &kv : g.labels)
     if (kv.first.rfind("fam_", 0) != 0 && kv.first.rfind("level", 0) != 0) G.label("gen:" + kv.first);
   return check_decode(g.bytes, ts, data, n, "bzgen", &g.plain);
+}
+// symbol-level blocks: planted bit strings (block-header pattern + junk / nested block) inside coded data, groups of
+// maximal width; decodable by the format's rules but not producible by an encoder, so only "accept => reference bytes"
+// and independence of buffer boundaries are demanded (C05 / C09 / C10 / C08)
+static Verdict prop_decode_sym(const uint8_t *data, size_t n) {
+  size_t cut = n > 24 ? 24 : n / 2;
+  bzkit::gen::GenOptions o;
+  o.max_block = 2500;
+  o.defect = -1;
+  o.sym_blocks = 2;
+  bzkit::gen::GenResult g = bzkit::gen::generate(data + cut, n - cut, o);
+  Tape ts(data, cut);
+  for (auto &kv : g.labels)
+    if (kv.first.rfind("sym", 0) == 0 || kv.first.rfind("plant", 0) == 0) G.label("gen:" + kv.first);
+  return check_decode(g.bytes, ts, data, n, "bzgen-sym", nullptr, !g.sym_used);
 }
 // one catalogue defect (C05 / C07)
 static Verdict prop_decode_defect(const uint8_t *data, size_t n) {
@@ -852,6 +876,7 @@ static const PropEntry PROPS[] = {
     {"scan", prop_scan, 120},          {"collect", prop_collect, 200},
     {"prefix", prop_prefix, 40},       {"decode_valid", prop_decode_valid, 1200},
     {"decode_defect", prop_decode_defect, 1200}, {"decode_raw", prop_decode_raw, 600},
+    {"decode_sym", prop_decode_sym, 1500},
     {"roundtrip", prop_roundtrip, 400}, {"bwt", prop_bwt, 300},
 };
 static const PropEntry *find_prop(const char *n) {
